@@ -28,6 +28,11 @@ def _work(args):
         r = fn(S, item)
         after = S.interp.call_counts
         delta = {k: v - before.get(k, 0) for k, v in after.items() if v != before.get(k, 0)}
+        if isinstance(r, dict):
+            for f in r.get('findings', ()):
+                if isinstance(f, dict) and not f.get('call_path'):
+                    # the repository functions interpreted for this configuration (the path the report is about)
+                    f['call_path'] = sorted(k.replace('pytorch_wavelets.', '') for k in delta)
         return ('ok', (r, delta))
     except AnalysisError as e:
         return ('analysis-error', (e.kind, e.msg + ((' at %s' % (e.loc,)) if getattr(e, 'loc', None) else '')
